@@ -18,7 +18,7 @@ from fractions import Fraction
 import numpy as np
 from hypothesis import strategies as st
 
-from .lab import LETTERS, MLab, build, cell_id, decide_add, decide_remove, id_rows, real_idx, wid
+from .lab import clone, evo_class, snapshot, LETTERS, MLab, build, cell_id, decide_add, decide_remove, id_rows, real_idx, wid
 
 WASHES = [1, 2, 3, 4, "flush", "reuse"]
 
@@ -80,7 +80,7 @@ def vsel(vs, max_n=6):
     )
 
 
-label_st = st.sampled_from([None, None, "", "step 1", "Transfer µ", "x"])
+label_st = st.sampled_from([None, None, "", "step 1", "Transfer µ", "x", "add 50 % v/v {0} %s", "100%"])
 
 
 # ---------------------------------------------------------------------------------------------
@@ -156,6 +156,8 @@ def vols_arg(cvol, ints=False):
             return list(cvol["v"])
         vals = [_as_int(x) for x in cvol["v"]]
         if all(isinstance(x, int) for x in vals):
+            if len(vals) % 4 == 0 and all(0 <= x < 65536 for x in vals):
+                return np.array(vals, dtype=np.uint16)  # what reading a plate layout from a file may give
             return np.array(vals, dtype=np.int64) if len(vals) % 2 == 0 else vals
         if f32_exact(cvol["v"]) and len(vals) % 2 == 0:
             return np.array(cvol["v"], dtype=np.float32)  # the same numbers in single precision
@@ -245,12 +247,29 @@ class World:
         self.device = device
         self.grid = 0.01 if grid is True else (grid or None)
         self.labs = [build(s) for s in specs]
+        # labware that reaches the script as a deep copy / an unpickled copy; the constructed object stays alive and
+        # must never change (nothing addresses it)
+        self.templates = []
+        for i, s in enumerate(specs):
+            if s.get("clone"):
+                original = self.labs[i]
+                self.labs[i] = clone(original, s["clone"])
+                self.templates.append((s["name"], s["clone"], original, snapshot(original)))
         self.models = [MLab(s, real=l) for s, l in zip(specs, self.labs)]
         if worklist is not None:
             self.wl = worklist
         else:
-            cls = {"evo": robotools.EvoWorklist, "fluent": robotools.FluentWorklist, "base": robotools.BaseWorklist}[device]
+            cls = {"evo": evo_class(sum(s["cols"] for s in specs)), "fluent": robotools.FluentWorklist, "base": robotools.BaseWorklist}[device]
             self.wl = cls(**(wl_kwargs or {}))
+            if specs and specs[0].get("clone"):
+                self.wl = clone(self.wl, specs[0]["clone"])  # the worklist as well
+
+    def templates_changed(self):
+        """Message if an object that was only copied from has changed, else None."""
+        for name, how, original, snap in self.templates:
+            if snapshot(original) != snap:
+                return f"labware {name!r} was copied ({how}) before the operations and only the copy was used, but the original changed: volumes {original.volumes.tolist()}, components {sorted(map(str, original.composition))}"
+        return None
 
     def vols(self):
         return [l.volumes for l in self.labs]
